@@ -211,7 +211,11 @@ def run_sweep(ctx, rng, direction, pid, enlarged=False):
             ck = '%s|%s|%s' % (direction, method, sweep.optkey(opts))
             bases = sweep.refine_bases(method, opts, thorough=not ctx.quick)
             for base in bases:
-                chain = sweep.refine_chain(direction, method, opts, base, thorough=not ctx.quick)
+                # classes with a recorded error floor are always refined as far as the thorough tier
+                # goes (the recorded growth of basex correction=False shows only between 201 and 301 px),
+                # so that the KNOWN-FINDING line is printed by every run
+                chain = sweep.refine_chain(direction, method, opts, base,
+                                           thorough=(not ctx.quick) or (ck in FLOORS and base['n0'] == 26))
                 amp = float(rng.choice([1.0, 3.0, 0.25]))
                 prev = None
                 for (c, lo, hi) in chain:
